@@ -176,6 +176,16 @@ from pyvc.abstractions import SymStrSet, SymMapped  # noqa: E402
 from pyvc import strmodels  # noqa: E402
 
 
+def _status_lines_are_output_lines(a, res, cx):
+    """A-git speaks about the lines of the command's output: the list that is parsed must be
+    exactly output.splitlines() of what `status` printed (not of an edited copy of it)."""
+    outs = [e[2] for e in cx.new if e[0] == "CallResult" and e[1] == "bumpver.vcs.VCSAPI.__call__"]
+    if len(outs) != 1 or not isinstance(res, SymMapped):
+        return False
+    root = res.root()
+    return isinstance(root, SSeq) and root.t.eq(strmodels.SPLITLINES(V.z3str(outs[0])))
+
+
 class KStrSet(Kind):
     def fresh(self, name, assumptions):
         return SymStrSet(SSeq(z3.Const(name, z3.SeqSort(z3.StringSort())), "str"))
@@ -235,6 +245,7 @@ for _X in PORCELAIN_CODES:
         # from the property: a path is reported iff it carries a pattern or is not merely untracked,
         # and it is reported under its own name
         c.ensures(f"C11.status.porcelain_line_{_nm}_reports_path_iff_dirty_or_required", _status_line_clause(_X, _Y))
+c.ensures("C11.status.parses_the_lines_of_the_status_output_itself", _status_lines_are_output_lines)
 c.ensures("C11.status.only_status_command", lambda a, res, cx: _vcs_names(cx) == ["status"])
 # a malformed line can only break the (non-porcelain) hg parser; never the git one
 c.exsures(ValueError, "C11.status.git_lines_never_break_the_parser", lambda a, exc, cx: v_ne(a.self.attrs["name"], "git"))
@@ -584,6 +595,7 @@ for _nm in ("ls_tags", "ls_tags_branch"):
     c.returns(KSeq("str"))
     c.effects = _ls_effects(_nm)
     c.ensures(f"C09.{_nm}.each_tag_line_is_returned_verbatim", _tag_line_clause)
+    c.ensures(f"C09.{_nm}.parses_the_lines_of_the_listing_output_itself", _status_lines_are_output_lines)
     c.ensures(f"C09+C10.{_nm}.issues_only_that_listing_command", lambda a, res, cx, _nm=_nm: _vcs_names(cx) == [_nm])
     c.exsures(sp.CalledProcessError)
     c.exsures(OSError)
@@ -654,3 +666,102 @@ _exit1 = lambda a, exc, cx: v_eq(exc.args[0], 1)
 REG["bumpver.hooks.run"].exsures(SystemExit, "C10.hooks.run.exit_status_1", _exit1)
 REG["bumpver.vcs.assert_not_dirty"].exsures(SystemExit, "C11.assert_not_dirty.exit_status_1", _exit1)
 REG["bumpver.vcs.commit"].exsures(SystemExit, "C10.vcs.commit.exit_status_1", _exit1)
+
+
+# --------------------------------------------------------------------------- C12: VCSAPI.__call__ builds argv verbatim
+import shlex as _shlex  # noqa: E402
+import string as _string  # noqa: E402
+
+ALL_CMD_NAMES = tuple(sorted({k for t in vcs.VCS_SUBCOMMANDS_BY_NAME.values() for k in t}))
+
+
+def spec_subst(token, kwargs):
+    """The template token with every {key} replaced by the value, verbatim ('{{' and '}}' are braces)."""
+    out = ""
+    for lit, fld, spec, conv in _string.Formatter().parse(token):
+        out = v_arith("+", out, lit)
+        if fld is not None:
+            out = v_arith("+", out, kwargs[fld])
+    return out
+
+
+def _call_clause(a, res_or_exc, cx):
+    if not hasattr(a, "kwargs"):
+        a.kwargs = dict(path=a.path, message=a.message, tag=a.tag, remote=a.remote)
+    name = a.self.attrs["name"]
+    cs = []
+    execs = [e for e in cx.new if e[0] == "Exec"]
+    if len(execs) != 1:
+        return False
+    argv = execs[0][1]
+    for g1, vname in V.as_guards(name):
+        table = vcs.VCS_SUBCOMMANDS_BY_NAME[vname]
+        for g2, cmd in V.as_guards(a.cmd_name):
+            if cmd not in table:
+                continue
+            tmpl = table[cmd]
+            needed = {f for tok in _shlex.split(tmpl) for _, f, _, _ in _string.Formatter().parse(tok) if f}
+            if not needed <= set(a.kwargs):
+                continue
+            expected = [spec_subst(tok, a.kwargs) for tok in _shlex.split(tmpl)]
+            ok = isinstance(argv, list) and len(argv) == len(expected) and b_and(*[v_eq(x, y) for x, y in zip(argv, expected)])
+            cs.append(b_implies(b_and(g1, g2), ok))
+    return b_and(*cs)
+
+
+def _call_body_contract():
+    c = REG.add(Contract("bumpver.vcs.VCSAPI.__call__", variant="body"))
+    c.param("self", KVcsApi())
+    c.param("cmd_name", KEnum(ALL_CMD_NAMES))
+    c.param("env", KConst(None))
+    c.param("path", KStr())
+    c.param("message", KStr())
+    c.param("tag", KStr())
+    c.param("remote", KStr())
+    # from the property: every value reaches the VCS as (part of) a single argument; the argument
+    # vector is the tokenised template with the placeholders substituted verbatim
+    c.ensures("C12.VCSAPI.__call__.argv_is_tokenised_template_with_values_verbatim", lambda a, res, cx: _call_clause(a, res, cx))
+    c.exsures(sp.CalledProcessError, "C12.VCSAPI.__call__.argv_verbatim_also_when_the_command_fails", lambda a, exc, cx: _call_clause(a, exc, cx))
+    c.exsures(OSError, "C12.VCSAPI.__call__.argv_verbatim_also_when_exec_fails", lambda a, exc, cx: _call_clause(a, exc, cx))
+    c.exsures(KeyError, "C12.VCSAPI.__call__.key_error_only_for_unknown_command_or_missing_value", lambda a, exc, cx: len([e for e in cx.new if e[0] == "Exec"]) == 0)
+    return c
+
+
+_call_body_contract()
+
+
+def _call_replayer(contract, ob, model_py, z3model=None):
+    """Run the real VCSAPI.__call__ with check_output captured; compare argv with the substituted template."""
+    import bumpver.vcs as rv
+
+    name = model_py["self"][2]["name"] if isinstance(model_py.get("self"), tuple) else "git"
+    cmd = model_py.get("cmd_name")
+    base = {k: model_py.get(k) or "x" for k in ("path", "message", "tag", "remote")}
+    candidates = [base] + [dict(base, **{k: v}) for v in ("it's a bump", "a' --amend '", 'say "hi"', "two  blanks", "back\\slash") for k in ("message", "path")]
+    for kw in candidates:
+        tmpl = rv.VCS_SUBCOMMANDS_BY_NAME[name].get(cmd)
+        if tmpl is None:
+            continue
+        captured = {}
+        saved = rv.sp.check_output
+
+        def fake(argv, **k):
+            captured["argv"] = list(argv)
+            return b""
+
+        rv.sp.check_output = fake
+        try:
+            try:
+                rv.VCSAPI(name)(cmd, **kw)
+                got = captured.get("argv")
+            except Exception as e:  # noqa
+                got = f"raised {type(e).__name__}: {e}"
+        finally:
+            rv.sp.check_output = saved
+        want = [tok.format(**kw) for tok in _shlex.split(tmpl)]
+        if got != want:
+            return dict(reproduced=True, inputs=dict(vcs=name, cmd_name=cmd, values=kw), observed=got, expected=want)
+    return dict(reproduced=False, inputs=dict(vcs=name, cmd_name=cmd, values=base))
+
+
+REG["bumpver.vcs.VCSAPI.__call__#body"].replayer = _call_replayer
